@@ -355,6 +355,16 @@ def normalise_renames(facts):
         cs = [sp for sp, raw in fresh if sp.rsplit("::", 1)[0] == par and sp not in ren.values() and args_of(_sig(raw)) == args_of(sigs[m])]
         if len(cs) == 1 and len([sp for sp, raw in fresh if sp.rsplit("::", 1)[0] == par and sp not in ren.values()]) <= 2:
             ren[m] = cs[0]
+    # fourth tier - a free function turned into a method (or back) inside the same module: the pinned name is gone and exactly one new
+    # function of that module takes the same multiset of argument types and returns the same type
+    for m in missing:
+        if m in ren:
+            continue
+        mod = "::".join(m.split("::")[:3])
+        key_ = lambda sg: (sorted(re.sub(r"'\w+ ", "", t) for t in list(sg)[:-1]), re.sub(r"'\w+ ", "", list(sg)[-1]))
+        cs = [sp for sp, raw in fresh if sp.startswith(mod + "::") and sp not in ren.values() and key_(_sig(raw)) == key_(sigs[m])]
+        if len(cs) == 1 and len(list(sigs[m])) >= 4:
+            ren[m] = cs[0]
     if not ren:
         return {}
     by_new = {n: m for m, n in ren.items()}
